@@ -462,10 +462,13 @@ bufferevent_socket_set_conn_address_(struct bufferevent *bev, struct sockaddr *a
 
 
 /** Internal use: We have just successfully read data into an inbuf, so
- * reset the read timeout (if any). */
+ * reset the read timeout (if any) -- unless that very data has filled the
+ * inbuf up to the read high-water mark: a suspended reader has no read
+ * timeout. */
 #define BEV_RESET_GENERIC_READ_TIMEOUT(bev)				\
 	do {								\
-		if (evutil_timerisset(&(bev)->timeout_read))		\
+		if (evutil_timerisset(&(bev)->timeout_read) &&		\
+		    !BEV_UPCAST(bev)->read_suspended)			\
 			event_add(&(bev)->ev_read, &(bev)->timeout_read); \
 	} while (0)
 /** Internal use: We have just successfully written data from an inbuf, so
